@@ -78,4 +78,36 @@ underlying last update (which is `d` seconds older than the report). -/
 def freshSpec (now ts : Int) (timeout d : Nat) : Prop :=
   now - ts ≤ (timeout : Int) ∧ now - (ts - (d : Int)) ≤ (timeout : Int)
 
+/-! ### The per-feed policy lives in `FeedConfig` (`crates/utils/src/token_config.rs`) -/
+
+/-- `FeedConfig`: feed id, timestamp adjustment, max deviation ratio (0 = none), market-status flags (u8) -/
+structure FeedCfg where
+  feed : Nat
+  tsAdj : Nat
+  ratio : Nat
+  flags : Nat
+  deriving Repr, DecidableEq
+
+inductive CfgOp where
+  | withFeed (f : Nat)            -- `with_feed`
+  | withTsAdj (t : Nat)           -- `with_timestamp_adjustment`
+  | withRatio (r : Nat)           -- `with_max_deviation_factor(Some(r * RATIO_MULTIPLIER))`, `None` for 0
+  | setFlag (i : Nat) (on : Bool) -- `set_market_status_flag`
+  deriving Repr, DecidableEq
+
+def setBit (x i : Nat) (on : Bool) : Nat :=
+  if bit x i = on then x else if on then x + 2 ^ i else x - 2 ^ i
+
+def FeedCfg.apply (c : FeedCfg) : CfgOp → FeedCfg
+  | .withFeed f => { c with feed := f }
+  | .withTsAdj t => { c with tsAdj := t }
+  | .withRatio r => { c with ratio := r }
+  | .setFlag i on => { c with flags := setBit c.flags i on }
+
+def FeedCfg.run (c : FeedCfg) (ops : List CfgOp) : FeedCfg := ops.foldl FeedCfg.apply c
+
+def CfgOp.isSetFlag : CfgOp → Bool
+  | .setFlag _ _ => true
+  | _ => false
+
 end Gmx.MarketOpen
